@@ -125,7 +125,16 @@ def main(argv=None):
     n_workers = int(os.environ.get('VERIF_WORKERS', str(min(16, os.cpu_count() or 1))))
 
     # Own the environment: hash seed and private cache directory for every worker
-    cache_dir = tempfile.mkdtemp(prefix=f'vf_{prop}_')
+    # (on a memory file system when there is one with room: the library writes one small file per connector setting and
+    # scenario, C09 creates ~10^5 of them, and deleting them from disk afterwards took longer than the exploration)
+    cache_root = None
+    try:
+        st = os.statvfs('/dev/shm')
+        if os.access('/dev/shm', os.W_OK) and st.f_bavail * st.f_frsize > 8 * 2**30 and not os.environ.get('VERIF_CACHE_ON_DISK'):
+            cache_root = '/dev/shm'
+    except OSError:
+        pass
+    cache_dir = tempfile.mkdtemp(prefix=f'vf_{prop}_', dir=cache_root)
     os.environ['XDG_CACHE_HOME'] = cache_dir
     # The hash seed is part of the explored configuration where a property quantifies over it (C05, C18: seeds
     # enumerated explicitly in sub-processes); everywhere else it is pinned so that a run -- and the signatures of the
